@@ -12,23 +12,24 @@ Model (Model/Canon.lean): `run pipeline inp` = essential check (ranks, empties d
 canonical names and residues: those stages never read `rank`, frame fact `Gen.rankUses`, pinned by
 `rank_use_sites`) → rows attached by position → `msa_sort_rank`.
 
-What is proved needs a premise that is *stronger* than the property's "names pairwise distinct":
-the sort keys `(length, first 256 bytes of the name)` must be pairwise distinct, because the
-comparator uses `strncmp(·,·,256)`.  `prefix_collision_counterexample` shows that the premise cannot
-be weakened to distinct names: two distinct names with a common 256-byte prefix (and equal lengths)
-are put into *input order reversed* by the sort, so the canonical list depends on the input order.
+The comparator of `msa_sort_len_name` is `strcmp` on the full names (commit 15117bc of the C
+sources; it used `strncmp(·,·,256)` before), so the sort keys are `(length, name)` and the
+property's own premise — names pairwise distinct — makes them pairwise distinct.
+`common_prefix_distinct_keys` / `common_prefix_example` document the repaired defect: two names
+with a common 256-byte prefix now have distinct keys and a canonical order that does not depend on
+the input order.
 -/
 namespace Kalign
 open List
 
-/-- the sort key of an input sequence: (length, first 256 bytes of the name) -/
+/-- the sort key of an input sequence: (length, name) -/
 def InSeq.key (x : InSeq) : Nat × Name := lenNameKey x.seq.length x.name
 
-/-- **P**: for pairwise distinct `(len, name.take 256)` keys the sorted list is the same for every
+/-- **P**: for pairwise distinct `(len, name)` keys the sorted list is the same for every
 permutation of the input (any payload type). -/
 theorem sort_unique_of_distinct_keys {α : Type} (len : α → Nat) (name : α → Name) {l₁ l₂ : List α}
     (hp : l₁.Perm l₂) (hnul : ∀ x ∈ l₁, NulFree (name x))
-    (hkeys : l₁.Pairwise fun a b => (len a, (name a).take 256) ≠ (len b, (name b).take 256)) :
+    (hkeys : l₁.Pairwise fun a b => (len a, name a) ≠ (len b, name b)) :
     sortLenNameBy len name l₁ = sortLenNameBy len name l₂ :=
   sortLenNameBy_perm len name hp hnul hkeys
 
@@ -112,17 +113,28 @@ theorem canon_names_nodup {inp : List InSeq} {c : List RSeq} (h : canon inp = so
     rw [map_map]
     exact hnames.sublist (filter_sublist.map _)
 
+/-- distinct names have distinct sort keys -/
+theorem keys_distinct_of_names_distinct {inp : List InSeq} (hnames : (inp.map (·.name)).Nodup) :
+    inp.Pairwise fun a b => a.key ≠ b.key := by
+  rw [Nodup, pairwise_map] at hnames
+  exact hnames.imp (fun h e => h (congrArg Prod.snd e))
+
+/-- the canonical list under the property's premise -/
+theorem canon_perm_invariant_of_distinct_names {inp inp' : List InSeq} (hp : inp'.Perm inp)
+    (hnul : ∀ x ∈ inp, NulFree x.name) (hnames : (inp.map (·.name)).Nodup) :
+    (canon inp').map view = (canon inp).map view :=
+  canon_perm_invariant hp hnul (keys_distinct_of_names_distinct hnames)
+
 /-- **C03** in the model: for ANY downstream pipeline that is a function of the canonical names
 and residues, permuting the input leaves the row printed under every name unchanged (hence the
-same residues share a column).  Premises: names pairwise distinct (the property's), NUL-free (C
-strings), and the sort keys `(length, first 256 bytes of the name)` pairwise distinct. -/
+same residues share a column).  Premises: the property's own — names pairwise distinct — and
+NUL-freeness (names are C strings). -/
 theorem order_independent (pipeline : List (Name × List Char) → List Row)
     {inp inp' : List InSeq} (hp : inp'.Perm inp)
-    (hnames : (inp.map (·.name)).Nodup) (hnul : ∀ x ∈ inp, NulFree x.name)
-    (hkeys : inp.Pairwise fun a b => a.key ≠ b.key) :
+    (hnames : (inp.map (·.name)).Nodup) (hnul : ∀ x ∈ inp, NulFree x.name) :
     rowsByName (run pipeline inp') = rowsByName (run pipeline inp) := by
   funext n
-  have hc := canon_perm_invariant hp hnul hkeys
+  have hc := canon_perm_invariant hp hnul (keys_distinct_of_names_distinct hnames)
   have hnames' : (inp'.map (·.name)).Nodup := ((hp.map _).nodup_iff).mpr hnames
   unfold run
   cases h : canon inp with
@@ -185,20 +197,12 @@ theorem run_restores_input_order (pipeline : List (Name × List Char) → List R
     rw [this, hv]
     simp [keptView, map_map, Function.comp_def]
 
-/-- corollary with the single premise "the first 256 bytes of the names are pairwise distinct" -/
-theorem order_independent_of_distinct_prefixes (pipeline : List (Name × List Char) → List Row)
+/-- the same, with the premise spelled "names pairwise distinct" -/
+theorem order_independent_of_distinct_names (pipeline : List (Name × List Char) → List Row)
     {inp inp' : List InSeq} (hp : inp'.Perm inp) (hnul : ∀ x ∈ inp, NulFree x.name)
-    (hpre : (inp.map fun x => x.name.take 256).Nodup) :
-    rowsByName (run pipeline inp') = rowsByName (run pipeline inp) := by
-  apply order_independent pipeline hp _ hnul
-  · rw [Nodup, pairwise_map] at hpre
-    refine hpre.imp ?_
-    intro a b h hk
-    apply h
-    have := congrArg Prod.snd hk
-    simpa [InSeq.key, lenNameKey, msaNameLen] using this
-  · rw [Nodup, pairwise_map] at hpre ⊢
-    exact hpre.imp (fun h e => h (by rw [e]))
+    (hnames : inp.Pairwise fun a b => a.name ≠ b.name) :
+    rowsByName (run pipeline inp') = rowsByName (run pipeline inp) :=
+  order_independent pipeline hp (by rw [Nodup, pairwise_map]; exact hnames) hnul
 
 /-- frame fact (translator T4): the only reader of `->rank` is the comparator of
 `msa_sort_rank`; the writers are allocation, the essential check and the two copy helpers.  A change
@@ -208,64 +212,65 @@ theorem rank_use_sites : Gen.rankUses =
      "msa_op.c:msa_seq_cpy:write", "msa_op.c:kalign_arr_to_msa:write", "msa_sort.c:sort_by_rank:read"] := by
   decide
 
-/-! ### the premise cannot be weakened to "names distinct" -/
+/-! ### the repaired defect: names with a common 256-byte prefix -/
 
-theorem merge_pair_of_tie {α : Type} (le : α → α → Bool) (a b : α) (h : le a b = false) :
-    mergeSort [a, b] le = [b, a] := by
-  simp [mergeSort, MergeSort.Internal.splitInTwo, h]
+theorem mergeSort_pair {α : Type} (le : α → α → Bool) (a b : α) :
+    mergeSort [a, b] le = if le a b then [a, b] else [b, a] := by
+  by_cases h : le a b <;> simp [mergeSort, MergeSort.Internal.splitInTwo, h]
 
-/-- general form: any two names `p ++ x ≠ p ++ y` with a common prefix `p` of 256 bytes, on
-sequences of equal non-zero length: the keys collide, the comparator answers 1 ("greater") in both
-directions, and the canonical order is the *reverse of the input order*. -/
-theorem prefix_collision (p x y : Name) (hp : p.length = 256) (hxy : x ≠ y)
+/-- any two NUL-free names `p ++ x`, `p ++ y` with a common prefix `p` (of 256 bytes or any other
+length) and `strcmp x y < 0`, on sequences of equal non-zero length: the keys are distinct, the
+comparator sees past the prefix (`strcmp (p++x) (p++y) = strcmp x y`), and the canonical list is
+`[p++x, p++y]` for *both* input orders.  (With `strncmp(·,·,256)` the keys collided and the
+canonical order was the reverse of the input order.) -/
+theorem common_prefix_distinct_keys (p x y : Name) (hxy : strcmp x y < 0)
     (s t : List Char) (hst : s.length = t.length) (hs : s.length ≠ 0) :
     let a : InSeq := { name := p ++ x, seq := s }
     let b : InSeq := { name := p ++ y, seq := t }
-    a.name ≠ b.name ∧ a.key = b.key ∧
-    cmpLenName s.length a.name t.length b.name = 1 ∧ cmpLenName t.length b.name s.length a.name = 1 ∧
-    (canon [a, b]).map view = some [(b.name, b.seq), (a.name, a.seq)] ∧
+    a.key ≠ b.key ∧
+    cmpLenName s.length a.name t.length b.name = -1 ∧ cmpLenName t.length b.name s.length a.name = 1 ∧
+    (canon [a, b]).map view = some [(a.name, a.seq), (b.name, b.seq)] ∧
     (canon [b, a]).map view = some [(a.name, a.seq), (b.name, b.seq)] := by
   intro a b
   have ht : t.length ≠ 0 := by omega
   have hs' : s ≠ [] := fun h => hs (by simp [h])
   have ht' : t ≠ [] := fun h => ht (by simp [h])
-  have hAB : strncmp msaNameLen (p ++ x) (p ++ y) = 0 := by
-    have := strncmp_append_eq_zero p x y
-    rwa [hp] at this
-  have hBA : strncmp msaNameLen (p ++ y) (p ++ x) = 0 := by
-    have := strncmp_append_eq_zero p y x
-    rwa [hp] at this
-  have c1 : cmpLenName s.length (p ++ x) t.length (p ++ y) = 1 := by simp [cmpLenName, hAB, hst]
+  have hAB : strcmp (p ++ x) (p ++ y) < 0 := by rw [strcmp_append_left]; exact hxy
+  have hBA : ¬ strcmp (p ++ y) (p ++ x) < 0 := by rw [strcmp_swap]; omega
+  have c1 : cmpLenName s.length (p ++ x) t.length (p ++ y) = -1 := by simp [cmpLenName, hAB, hst]
   have c2 : cmpLenName t.length (p ++ y) s.length (p ++ x) = 1 := by simp [cmpLenName, hBA, hst]
-  refine ⟨?_, ?_, c1, c2, ?_, ?_⟩
+  refine ⟨?_, c1, c2, ?_, ?_⟩
   · intro h
-    exact hxy (append_cancel_left h)
-  · show lenNameKey s.length (p ++ x) = lenNameKey t.length (p ++ y)
-    unfold lenNameKey msaNameLen
-    rw [take_left' hp, take_left' hp, hst]
+    have e : p ++ x = p ++ y := congrArg Prod.snd h
+    have : x = y := append_cancel_left e
+    rw [this, strcmp_self] at hxy
+    omega
   · have e : essentialInputCheck [a, b] = some [⟨p ++ x, s, 0⟩, ⟨p ++ y, t, 1⟩] := by
       simp [essentialInputCheck, essentialCheck, a, b, hs', ht']
-    have hle : leLenName ⟨p ++ x, s, 0⟩ ⟨p ++ y, t, 1⟩ = false := by
+    have hle : leLenName ⟨p ++ x, s, 0⟩ ⟨p ++ y, t, 1⟩ = true := by
       simp [leLenName, c1]
-    simp only [canon, e, Option.map_some, sortLenName, merge_pair_of_tie _ _ _ hle, view, map_cons, map_nil, a, b]
+    simp only [canon, e, Option.map_some, sortLenName, mergeSort_pair, hle, if_true, view, map_cons, map_nil, a, b]
   · have e : essentialInputCheck [b, a] = some [⟨p ++ y, t, 0⟩, ⟨p ++ x, s, 1⟩] := by
       simp [essentialInputCheck, essentialCheck, a, b, hs', ht']
     have hle : leLenName ⟨p ++ y, t, 0⟩ ⟨p ++ x, s, 1⟩ = false := by
       simp [leLenName, c2]
-    simp only [canon, e, Option.map_some, sortLenName, merge_pair_of_tie _ _ _ hle, view, map_cons, map_nil, a, b]
+    simp only [canon, e, Option.map_some, sortLenName, mergeSort_pair, hle, view, a, b]
+    rfl
 
-/-- a concrete instance: the names are 256 × 'A' followed by 'B' resp. 'C' (the `sort_len_name`
-op on `2:41…4142 2:41…4143` and on the swapped arguments shows the same for the C code: `1,0`
-both times). -/
-theorem prefix_collision_counterexample :
+/-- the concrete instance that used to be the counterexample: names 256 × 'A' followed by 'B'
+resp. 'C'.  The `sort_len_name` op on `2:41…4142 2:41…4143` gives `0,1` and on the swapped
+arguments `1,0` for the C code as well (it gave `1,0` both times before the repair). -/
+theorem common_prefix_example :
     let a : InSeq := { name := replicate 256 0x41 ++ [0x42], seq := ['A', 'C'] }
     let b : InSeq := { name := replicate 256 0x41 ++ [0x43], seq := ['G', 'T'] }
-    a.name ≠ b.name ∧ a.key = b.key ∧
-    (canon [a, b]).map view = some [(b.name, b.seq), (a.name, a.seq)] ∧
+    a.name.take 256 = b.name.take 256 ∧ a.key ≠ b.key ∧
+    (canon [a, b]).map view = some [(a.name, a.seq), (b.name, b.seq)] ∧
     (canon [b, a]).map view = some [(a.name, a.seq), (b.name, b.seq)] := by
-  have h := prefix_collision (replicate 256 0x41) [0x42] [0x43] length_replicate (by decide)
+  have h := common_prefix_distinct_keys (replicate 256 0x41) [0x42] [0x43] (by decide)
     ['A', 'C'] ['G', 'T'] rfl (by decide)
-  exact ⟨h.1, h.2.1, h.2.2.2.2.1, h.2.2.2.2.2⟩
+  refine ⟨?_, h.1, h.2.2.2.1, h.2.2.2.2⟩
+  show ((replicate 256 0x41 : Name) ++ [0x42]).take 256 = ((replicate 256 0x41 : Name) ++ [0x43]).take 256
+  rw [take_left' length_replicate, take_left' length_replicate]
 
 /-! ### the hypotheses are satisfiable (non-vacuity) -/
 
@@ -279,6 +284,6 @@ example : exInp'.Perm exInp := by decide
 example : (exInp.map (·.name)).Nodup := by decide
 example : ∀ x ∈ exInp, NulFree x.name := by decide
 example : exInp.Pairwise fun a b => a.key ≠ b.key := by decide
-example : (exInp.map fun x => x.name.take 256).Nodup := by decide
+example : exInp.Pairwise fun a b => a.name ≠ b.name := by decide
 
 end Kalign
